@@ -130,4 +130,49 @@ PLANS["C09"] = dict(
                  "language comparison strips meta-data (priorities legitimately remove parses) and is skipped when the expansion is cyclic or epsilon-ambiguous"],
     floor=dict(quick=100, thorough=1000),
 )
+PLANS["C14"] = dict(
+    jobs=sharded("c14", "C14", 1600, 24000), replay=replay_with("c14", "C14"),
+    rule="one evaluation = one (conflict-free grammar, layout family, sentence rendering) parsed by the real LR parser with the generic TreeBuilder; for every leaf in order stored layout + token text must rebuild the input "
+         "byte for byte up to trailing layout, every stored layout must be accepted by an independent recogniser of the family (whitespace; + line comments; + nested block comments), and the tree of the sentence "
+         "with random layout inserted (also none between single-letter tokens, NBSP/EM SPACE, CRLF, comments at end of input) must equal the tree of the blank-separated sentence; "
+         "non-trivial = distinct (grammar+family, input) whose tree stores layout before >= 2 tokens",
+    assumptions=BNF_ASSUME[:2] + ["four layout families: default whitespace skipping and three user Layout rules (the comment family is the one of rustemo's own grammar language)",
+                                  "comment bodies are generated without `//` inside block comments (a CommentLine there swallows the closing `*/` by longest match, as in rustemo's own language)",
+                                  "terminals never start like a layout opener"],
+    floor=dict(quick=200, thorough=2000),
+)
+def c15_jobs(ctx):
+    th = ctx["tier"] == "thorough"
+    out = []
+    for prof in ("dev", "release"):
+        for i in range(NSH):
+            args = ["--seed", ctx["seed"], "--shard", i, "--nshards", NSH, "--tier", ctx["tier"], "--n", (400 if th else 40), "--max-s", (900 if th else 100)]
+            env = {}
+            if prof == "dev" and i == NSH - 1:
+                env["RUSTEMO_TRACE"] = "1"  # log! bodies are evaluated (debug build only)
+            out.append(dict(worker="c15", prop="C15", args=args, profile=prof, env=env))
+    return out
+
+
+PLANS["C15"] = dict(
+    jobs=c15_jobs, replay=replay_with("c15", "C15"), profiles=("dev", "release"), abort_is_violation=True,
+    rule="one evaluation = one parse call (LR or GLR, default lexer or one of three hostile user lexers) under catch_unwind with a logical clock that counts every table query, recogniser call and lexer call; "
+         "verdict: panic (any payload) or more than 20000*(bytes+1) steps = violation, process abort = violation, wall-clock watchdog = inconclusive. Grammars: every .rustemo file shipped in the repository, "
+         "the literature corpus, random BNF (+ Layout families), lexically ambiguous terminal sets; inputs: sentences and mutations, 30 fixed Unicode/control-character noise strings, literals cut in the middle, "
+         "unterminated comments, 10^5-byte inputs, 20000-token deep recursions. Debug (overflow checks, debug_assert, one shard with RUSTEMO_TRACE=1) and release builds. "
+         "non-trivial = distinct (grammar, algorithm, lexer mode, outcome kind)",
+    assumptions=["hostile lexers keep the token kind inside the generated TokenKind range and never return zero-width non-STOP tokens (outside the statement of C15)",
+                 "fence of listed finding lr-epsilon-loop: LR grammars of this workload carry no meta-data; conflicts are resolved by prefer_shifts only",
+                 "Forest::solutions() and tree extraction are not part of parse() and are not called here"],
+    floor=dict(quick=300, thorough=1500),
+)
+PLANS["C16"] = dict(
+    jobs=sharded("c16", "C16", 6400, 120000, max_s_quick=120, max_s_thorough=1500), replay=replay_with("c16", "C16"), abort_is_violation=True,
+    rule="one evaluation = one process_grammar call under catch_unwind (a process abort is caught through the case file the worker leaves behind): the result must be Ok or Err with a non-empty message. "
+         "Texts: 115 hand-written exemplars (one per construct of the grammar language including the unimplemented ones, reserved names, duplicates, numeric extremes, Rust keywords) under the full lattice "
+         "{LR,GLR} x 3 table types x prefer-shift settings x {default, generic} builder; every .rustemo file of the repository; outputs of all harness generators; 1-3 rounds of token-level and character-level "
+         "mutation of all of these under random settings. non-trivial = distinct outcome class (Ok, or the first words of the error message)",
+    assumptions=["in-process execution; stack overflows and aborts are observed as worker death with the current case recorded"],
+    floor=dict(quick=40, thorough=60),
+)
 NOT_CLAIMED = {}
